@@ -789,6 +789,21 @@ pub fn c06_checks() -> Vec<Box<dyn DynCheck>> {
 pub const C13_RULE: &str = "positions biased to two..four like pieces (knights, bishops, rooks, queens incl. promoted ones) that can reach one square from different files and ranks (ambiguity theme: origins drawn from the squares attacking a chosen target), pinned look-alikes (pin theme), promotions, en passant, castling with check, plus placements and reachable walks; enumerate_candidate_moves_with_algebraic_notation (and Game::enumerated_candidate_moves on a slice) must give every legal move exactly the reference SAN (piece letter, minimal file -> rank -> square disambiguation among LEGAL like-piece moves to the square, 'x', pawn-capture file, '=Q/R/B/N', O-O/O-O-O, '+'/'#') and labels must be pairwise distinct. Sessions: one Game object is driven through a generated shuffling game and its listing is compared with the reference at every turn (placements recur with either side to move). Non-trivial = at least two legal moves of like pieces share a destination (labels: same-file, same-rank, neither-shared, both-needed), or promotion/en-passant/castle-with-check present; distinct = position fingerprint.";
 
 fn notation_position() -> BoxedStrategy<String> {
+    // the label of a move must not depend on the clocks: one position in eight sits at clock 99
+    (notation_position_inner(), 0u8..8)
+        .prop_map(|(fen, k)| {
+            if k == 7 {
+                let mut p = Pos::from_fen(&fen).unwrap();
+                p.half = 99;
+                p.fen()
+            } else {
+                fen
+            }
+        })
+        .boxed()
+}
+
+fn notation_position_inner() -> BoxedStrategy<String> {
     prop_oneof![
         8 => gen::ambiguity_theme().prop_map(|r| gen::build(&r).fen()),
         2 => gen::pin_check_theme().prop_map(|r| gen::build(&r).fen()),
@@ -798,6 +813,8 @@ fn notation_position() -> BoxedStrategy<String> {
         2 => gen::castle_theme().prop_map(|r| gen::build(&r).fen()),
         1 => gen::cage_theme().prop_map(|r| gen::build(&r).fen()),
         2 => gen::material_extreme().prop_map(|r| gen::build(&r).fen()),
+        1 => gen::crowded_promo().prop_map(|r| gen::build(&r).fen()),
+        1 => gen::terminal_biased(),
         2 => gen::placement(24).prop_map(|r| gen::build(&r).fen()),
         3 => gen::walk(60).prop_map(|w| gen::walk_end(&w).fen()),
     ]
